@@ -38,8 +38,8 @@ CHECKS = {
         design="6 C02"),
     "C19": dict(
         level="model_checking",
-        technique="TLA+ trace specification LadimTrace (composed protocol timer->release->force->output?->move->ibm, snapshot identity, close once) validated by TLC against complete ladim.main runs with all eight modules replaced by recording plug-ins given by file path",
-        text="Every recorded end-to-end execution must be a behaviour of the composed specification: events in protocol order and multiplicity, forcing evaluated on exactly the particle set after release (incl. new ones) with variables equal to the velocity at the present positions, the record taken from that state, the IBM seeing the moved state once per step (ageing by one, scripted kills/freezes effective from the next record), every module's close called exactly once after the last step; the plug-ins are loaded by path, so a run that ignored them would produce no events.",
+        technique="TLA+ composition model Ladim.tla model-checked with TLC (MC_Ladim: ProtocolOrder, RecordIsForcedState, RecordsFaithful); trace specification LadimTrace validated by TLC against complete ladim.main runs with all eight modules replaced by recording plug-ins given by file path; scenarios chosen by TLC on the composed model replayed through ladim.main with the model's records as prediction",
+        text="Every recorded end-to-end execution must be a behaviour of the composed specification: events in protocol order and multiplicity, forcing evaluated on exactly the particle set after release (incl. new ones) with variables equal to the velocity at the present positions, the record taken from that state, the IBM seeing the moved state once per step (ageing by one, scripted kills/freezes effective from the next record), every module's close called exactly once after the last step; the plug-ins are loaded by path (the IBM from a per-scenario file that shadows an importable module name and carries a token), so a run that ignored or cached them is rejected. TLC also enumerates the composed abstract model (release groups x scripted kills x output periods) and 250+ of its scenarios are materialised and run; which identifiers each record holds must be what the model predicted.",
         note="Random scenario space (grids with land, irregular multi-file forcing, fwd/rev, discrete/continuous release, EF/RK2/RK4, sparse/dense, split files). Trusted: LADiM's module loader itself delivers the plug-ins (that is part of the property), TLC.",
         design="6 C19"),
     "C07": dict(
@@ -56,15 +56,15 @@ CHECKS = {
         design="6 C06"),
     "C09": dict(
         level="model_checking",
-        technique="LadimTrace move-outcome clauses (kill / inactive / land-cancel / moved with interval semantics) evaluated by TLC on every tracker step of directed coast scenarios, with vacuity counters per outcome",
+        technique="Tracker.tla model-checked with TLC (MC_Tracker: StaysInWater inductive step, DeadStayDead, InactiveNotMoved, KilledNotMoved for all masks / positions / displacements); LadimTrace move-outcome clauses (kill / inactive / land-cancel / moved with interval semantics) evaluated by TLC on every tracker step of directed coast scenarios, with vacuity counters per outcome",
         text="For every living particle of every recorded tracker step TLC recomputes the candidate position from the velocities the tracker was given (scheme tableau) and requires the logged outcome to be one of: killed (candidate outside the valid region; dead and inactive, not moved), inactive (not moved), cancelled (candidate on land; not moved), moved; living particles are in the valid region, in a sea cell, finite; no dead particle is alive again in any later snapshot or record.",
         note="Interval semantics within 4/65536 cell of the margin or of a cell edge. Velocity correctness is C02/C03.",
         design="6 C09"),
     "C01": dict(
         level="model_checking",
-        technique="Tableau.tla order conditions model-checked (MC_Tableau); LadimTrace stage-protocol and displacement clauses validated by TLC on recorded velocity requests of the real tracker",
+        technique="Tableau.tla order conditions model-checked (MC_Tableau) and proved for the two-stage family (TLAPS); LadimTrace stage-protocol and displacement clauses validated by TLC on recorded velocity requests of the real tracker; HelperTrace on ladim.analytical.get_velocity1/2/4 with a scripted sample function; measured convergence slopes checked against wide bands",
         text="TLC proves the order conditions (1, 2, 4) of the tableaux the trace specification uses; for every recorded tracker step the scheme's stage evaluations must occur in order among the recorded velocity requests - right fractional times, stage positions X + c_k dt/dx U_{k-1} (clipped) derived from the previous stage's logged result - and moved particles must land at X + dt/dx sum b_k U_k (dy for Y).",
-        note="Sheared time-dependent fields, dx/dy in {128, 256} independently. The limit statement (convergence order) follows from tableau + conformance; a numerical slope measurement is not part of the verdict yet.",
+        note="Sheared time-dependent fields, dx/dy in {128, 256} independently. The limit statement (convergence order) follows from tableau + conformance; the measured slopes (analytic time-dependent rotation, dt halved three times) enter through the wide-band clause order.slope_in_band only.",
         design="6 C01"),
     "C12": dict(
         level="model_checking",
@@ -104,7 +104,7 @@ CHECKS = {
         design="6 C17"),
     "C14": dict(
         level="model_checking",
-        technique="PairTrace (relations between paired runs: same / subset / shift, per-particle keys and bit-for-bit digests) decided by TLC on families of real runs, each run validated by LadimTrace",
+        technique="MC_Ladim (Independent, CacheAligned; control configuration with the pinned cache placement refuted by TLC); PairTrace (relations between paired runs: same / subset / shift, per-particle keys and bit-for-bit digests) decided by TLC on families of real runs, each run validated by LadimTrace",
         text="For every family TLC requires: the repeated run reproduces records, files and particle variables exactly (digests of the raw bytes); with single release rows removed or rows reordered every remaining particle (matched by release row and occurrence) has the identical trajectory and age in every record up to renumbering; with every time of the set-up shifted by whole steps all records are identical at the shifted times. Deaths of whole release rows are scheduled right before output steps and a quarter of the families use vertical advection, the compositions in which a stale per-particle forcing cache shows.",
         note="Diffusion off. In continuous mode rows are only removed from release times that keep another row (removing a whole file time changes the schedule by definition).",
         design="6 C14"),
@@ -116,7 +116,7 @@ CHECKS = {
         design="6 C10"),
     "C08": dict(
         level="model_checking",
-        technique="LadimTrace with a warm-start catch-up cycle whose specification state is initialised from the uninterrupted run's own recorded history; PairTrace restart relation; warm output schedule model-checked (MC_OutFile)",
+        technique="MC_Ladim RestartEq (warm start from every record of every small scenario; control configuration restoring the identifier counter from the highest pid refuted by TLC); LadimTrace with a warm-start catch-up cycle whose specification state is initialised from the uninterrupted run's own recorded history; PairTrace restart relation; warm output schedule model-checked (MC_OutFile)",
         text="For every uninterrupted split run a warm-started run from every completed output file is executed. TLC validates the restarted run's whole trace against the composed specification started from the uninterrupted run's recorded state at the restart record (catch-up step without output, releases at the start time skipped, identifiers continuing, file numbers continuing) and decides the relation: every record written after the restart and before the (step-aligned) stop time equals the uninterrupted run's record at that time - particle sets, identifiers, positions, ages (bit-for-bit digests) - and the particle variables agree.",
         note="Forward time, diffusion off. Output without particle variables falls back to max(pid)+1 for the identifier counter (documented limitation of the repaired code, not exercised).",
         design="6 C08"),
